@@ -160,3 +160,13 @@ Theorem C01_no_inplace_arithmetic_on_stored_arrays : List.length T7inplace.inpla
   forallb C14_tie.not_in_fit_algorithm T7inplace.inplace_sites = true.
 Proof. exact (conj (f_equal (@List.length _) C14_tie.inplace_sites_known) (f_equal (forallb _) C14_tie.inplace_sites_known)). Qed.
 Print Assumptions C01_no_inplace_arithmetic_on_stored_arrays.
+
+(* the singular values, scores and components an EOF-type model reports are the factors its SVD back-end returned: in the two decomposition front-ends (Decomposer.fit, _SVD.fit_transform) the data and the three factors are bound only by the back-end call,
+   the re-ordering of the iterative complex solver, the truncations, the mode labels and the sign fix - the statements regenerated from the source by T3
+   are exactly these; nothing rescales, floors or clips a singular value on the way *)
+From XV Require Gen.T3 Proofs.C15_opts.
+Theorem C01_factors_are_the_back_ends : List.length T3.dec_factor_writes = 20%nat /\ List.length T3.svd_factor_writes = 18%nat /\
+  forallb (fun st => negb (String.eqb st "s = s.clip(min=1e-10 * s.max())")) T3.dec_factor_writes = true.
+Proof. exact (conj (f_equal (@List.length _) C15_opts.dec_factor_writes_known) (conj (f_equal (@List.length _) C15_opts.svd_factor_writes_known)
+  (f_equal (forallb _) C15_opts.dec_factor_writes_known))). Qed.
+Print Assumptions C01_factors_are_the_back_ends.
